@@ -19,6 +19,7 @@ package config
 import (
 	"bytes"
 	"errors"
+	"fmt"
 	"io"
 	"mime"
 
@@ -71,7 +72,7 @@ func parseYAML(reader io.Reader, envUsageEnabled bool) (*RuleSet, error) {
 				"failed to read rule set").CausedBy(err)
 		}
 
-		content, err := envsubst.EvalEnv(stringx.ToString(raw))
+		content, err := evalEnv(stringx.ToString(raw))
 		if err != nil {
 			return nil, errorchain.NewWithMessage(heimdall.ErrConfiguration,
 				"failed to evaluate env variables in rule set").CausedBy(err)
@@ -98,4 +99,17 @@ func parseYAML(reader io.Reader, envUsageEnabled bool) (*RuleSet, error) {
 	}
 
 	return &ruleSet, nil
+}
+
+// evalEnv substitutes the references to environment variables in the given text. The used library
+// panics for some expressions, like e.g. ${FOO:3:-1} (a negative length in a substring expression).
+// Since rule sets are also loaded while heimdall is running, that must not take the process down.
+func evalEnv(text string) (content string, err error) {
+	defer func() {
+		if r := recover(); r != nil {
+			err = fmt.Errorf("%w: invalid environment variable expression: %v", heimdall.ErrConfiguration, r)
+		}
+	}()
+
+	return envsubst.EvalEnv(text)
 }
